@@ -112,7 +112,8 @@ THLook ==
          wsnap == IF want \in present THEN want ELSE ""
      IN /\ Expect(Ev.route = want,
                   IF Ev.route = "" THEN "handler:route-dropped" \o (IF want \in present THEN "" ELSE ":cluster-absent")
-                  ELSE IF want # "" /\ want \notin present /\ Ev.route \in present THEN "handler:fell-through-to-existing-cluster"
+                  ELSE IF want # "" /\ want \notin present /\ Ev.route \in present /\ IdxOf(rs, Ev.route) \in AllMatches(rs, EvReq)
+                  THEN "handler:fell-through-to-existing-cluster"
                   ELSE "handler:route-differs-from-matchroute")
         /\ Expect(Ev.route # want \/ Ev.snap = wsnap,
                   IF Ev.snap = "" THEN "handler:snapshot-missing" ELSE IF wsnap = "" THEN "handler:snapshot-of-absent-cluster" ELSE "handler:snapshot-of-other-cluster")
